@@ -8,11 +8,47 @@ from .common import simple_graphs, multigraphs, grid_edges, set_partitions, load
 from specs import graphpred
 
 
-def _graph(G, n, edges):
+def _graph(G, n, edges, build="plain", warm=None):
+    """builds the Graph object.  `build` varies what the property does not depend on: the orientation
+    in which each edge is handed to add_edge ('flipped': (v,u); 'mixed': every other one) and the
+    object's history ('grown': the graph is first USED with only half of its edges through `warm`,
+    then completed) - the result must be the same graph."""
     g = G.Graph(n)
-    for (u, v) in edges:
+    k = len(edges) // 2 if build == "grown" else len(edges)
+    def put(i):
+        u, v = edges[i]
+        if build == "flipped" or (build in ("mixed", "grown") and i % 2 == 1):
+            u, v = v, u
         g.add_edge(u, v)
+    for i in range(k):
+        put(i)
+    if build == "grown":
+        if warm is not None:
+            try:
+                warm(g)
+            except Exception:
+                pass
+        for i in range(k, len(edges)):
+            put(i)
     return g
+
+
+BUILDS = ("plain", "flipped", "mixed", "grown")
+
+
+def with_builds(descs):
+    """every explicit-graph instance additionally in the other build variants (all four for graphs
+    with <= 3 vertices, one rotating variant beyond)"""
+    i = 0
+    for d in descs:
+        yield d
+        if "edges" in d and d["edges"]:
+            if d.get("n", 9) <= 4 and not d.get("deep"):
+                for b in BUILDS[1:]:
+                    yield dict(d, build=b)
+            else:
+                i += 1
+                yield dict(d, build=BUILDS[1 + i % 3])
 
 
 def _struct(d):
@@ -46,7 +82,9 @@ def inst_C05(d):
                 G.division_connected(s, IntArray2D(caller, (h, w)), R, roots=rts, allow_empty_group=allow_empty)
             else:
                 div = IntArray1D(caller) if d.get("as_array") else list(caller)
-                G.division_connected(s, div, R, _graph(G, n, edges), roots=roots, allow_empty_group=allow_empty)
+                from cspuz import Solver as _S
+                warm = lambda g: G.division_connected(_S(), list(_S().int_array(n, 0, R - 1)), R, g, allow_empty_group=True)
+                G.division_connected(s, div, R, _graph(G, n, edges, d.get("build", "plain"), warm), roots=roots, allow_empty_group=allow_empty)
         finally:
             config.use_graph_primitive = old
 
@@ -64,8 +102,6 @@ def descs_C05(tier):
     nmax = 4 if tier == "quick" else 5
     for n in range(1, nmax + 1):
         for edges in simple_graphs(n):
-            if tier == "quick" and n == 4 and len(edges) % 2:
-                continue
             for R in (1, 2, 3):
                 if R ** n > 300:
                     continue
@@ -127,7 +163,11 @@ def inst_C06(d):
             return list(r)
         x, val = emission.bool_forms(d.get("form", "vars"), caller) if m else ([], lambda a: [])
         state["val"] = val
-        r = f(s, x, _graph(G, n, edges), use_graph_primitive=prim)
+        from cspuz import Solver as _S
+        def warm(g):
+            s2 = _S()
+            f(s2, list(s2.bool_array(len(g.edges))), g, use_graph_primitive=prim)
+        r = f(s, x, _graph(G, n, edges, d.get("build", "plain"), warm), use_graph_primitive=prim)
         return list(r)
 
     def pred(alpha):
@@ -204,11 +244,14 @@ def inst_C07(d):
                 if tuple(r.shape) != (h, w):
                     raise AssertionError("returned shape %s" % (r.shape,))
                 return list(r)
-            return list(G.division_connected_variable_groups(s, graph=_graph(G, n, edges), group_size=state["gs"]))
+            from cspuz import Solver as _S
+            warm = lambda g: G.division_connected_variable_groups(_S(), graph=g)
+            return list(G.division_connected_variable_groups(s, graph=_graph(G, n, edges, d.get("build", "plain"), warm), group_size=state["gs"]))
 
         def ghost(ret_terms):
             out = []
-            for part in set_partitions(n):
+            parts = _deep_partitions(d) if d.get("deep") else set_partitions(n)
+            for part in parts:
                 f = z3.And([(ret_terms[u] == ret_terms[v]) == (part[u] == part[v]) for u in range(n) for v in range(u)]) if n > 1 else z3.BoolVal(True)
                 out.append((part, f))
             return out
@@ -261,8 +304,12 @@ def inst_C07(d):
             arr = IntArray2D([gs[y * w:(y + 1) * w] for y in range(h)])
             G.division_connected_variable_groups_with_borders(s, group_size=arr, is_border=state["frame"], use_graph_primitive=prim)
         else:
+            from cspuz import Solver as _S
+            def warm(g):
+                s2 = _S()
+                G.division_connected_variable_groups_with_borders(s2, group_size=None, is_border=list(s2.bool_array(len(g.edges))), graph=g, use_graph_primitive=prim)
             G.division_connected_variable_groups_with_borders(s, group_size=state["gs"], is_border=caller[:m],
-                                                              graph=_graph(G, n, edges), use_graph_primitive=prim)
+                                                              graph=_graph(G, n, edges, d.get("build", "plain"), warm), use_graph_primitive=prim)
 
     def pred(alpha):
         return graphpred.division_with_borders_ok(n, edges, list(alpha[:m]), sizes_of(alpha[m:]))
@@ -316,7 +363,11 @@ def inst_C08(d):
             h, w = d["grid"]
             f(s, BoolArray2D(x, (h, w)))
         else:
-            f(s, BoolArray1D(x), _graph(G, n, edges))
+            from cspuz import Solver as _S
+            def warm(g):
+                s2 = _S()
+                f(s2, s2.bool_array(n), g)
+            f(s, BoolArray1D(x), _graph(G, n, edges, d.get("build", "plain"), warm))
 
     def pred(alpha):
         act = state["val"](alpha)
@@ -360,7 +411,11 @@ def inst_C09(d):
     def emit(s, caller):
         x, val = emission.bool_forms(d.get("form", "vars"), caller) if m else ([], lambda a: [])
         state["val"] = val
-        G.active_edges_acyclic(s, x, _graph(G, n, edges))
+        from cspuz import Solver as _S
+        def warm(g):
+            s2 = _S()
+            G.active_edges_acyclic(s2, list(s2.bool_array(len(g.edges))), g)
+        G.active_edges_acyclic(s, x, _graph(G, n, edges, d.get("build", "plain"), warm))
 
     def pred(alpha):
         return graphpred.edges_acyclic(n, edges, state["val"](alpha))
@@ -482,6 +537,10 @@ def deep_alphas(d):
     if f in ("active_edges_single_cycle", "active_edges_single_path", "active_edges_acyclic"):
         m = len(_edges_of(d))
         bases = [[True] * m, [True] * (m - 1) + [False], [False] * m, [i % 2 == 0 for i in range(m)], [False] + [True] * (m - 1)]
+        if "frame" in d:
+            h, w = d["frame"]
+            for cyc in _frame_cycles(h, w):
+                bases.append(cyc)
         return [a for b in bases for a in _mutations(b, rnd, 5)]
     if f.startswith("active_vertices_not_adjacent"):
         h, w = d["grid"]
@@ -530,11 +589,87 @@ def deep_alphas(d):
         per_v = {(y, 0) for y in range(h)} | {(y, w) for y in range(h)}
         bases = [pack(per_h, per_v), pack(set(), set()), pack({(0, x) for x in range(w)}, set()),
                  pack({(y, x) for y in range(h + 1) for x in range(w)}, {(y, x) for y in range(h) for x in range(w + 1)})]
-        if h >= 2 and w >= 2:
-            # figure eight through the point (1, 1)
-            bases.append(pack({(0, 0), (1, 0), (1, 1), (2, 1)}, {(0, 0), (0, 1), (1, 1), (1, 2)}))
+        for cy in range(1, h):
+            for cx in range(1, w):
+                # figure eight (two unit squares) crossing at the interior point (cy, cx)
+                bases.append(pack({(cy - 1, cx - 1), (cy, cx - 1), (cy, cx), (cy + 1, cx)}, {(cy - 1, cx - 1), (cy - 1, cx), (cy, cx), (cy, cx + 1)}))
+                # open path crossing itself at (cy, cx)
+                bases.append(pack({(cy, cx - 1), (cy, cx), (cy - 1, cx)}, {(cy - 1, cx), (cy, cx), (cy - 1, cx + 1)} if cx + 1 <= w else set()))
         return [a for b in bases for a in _mutations(b, rnd, 6)]
     raise ValueError(f)
+
+
+def _frame_cycles(h, w):
+    """long loops on the lattice of an h x w frame as segment patterns (order of _frame_struct):
+    the perimeter, a Hamiltonian cycle through every lattice point (when one exists) and a comb"""
+    P, Q = h + 1, w + 1
+    hk = [(y, x) for y in range(h + 1) for x in range(w)]
+    vk = [(y, x) for y in range(h) for x in range(w + 1)]
+
+    def pattern(points):
+        hs, vs = set(), set()
+        for (a, b) in zip(points, points[1:] + points[:1]):
+            (y1, x1), (y2, x2) = sorted([a, b])
+            if y1 == y2:
+                hs.add((y1, x1))
+            else:
+                vs.add((y1, x1))
+        return [k in hs for k in hk] + [k in vs for k in vk]
+
+    out = []
+    if P >= 2 and Q >= 2:
+        per = [(0, x) for x in range(Q)] + [(y, Q - 1) for y in range(1, P)] + [(P - 1, x) for x in range(Q - 2, -1, -1)] + [(y, 0) for y in range(P - 2, 0, -1)]
+        out.append(pattern(per))
+
+        def ham(P, Q, tr):
+            # rows even: top row left->right, rows 1..P-1 snake inside columns 1..Q-1, back up column 0
+            pts = [(0, x) for x in range(Q)]
+            for r in range(1, P):
+                cols = range(Q - 1, 0, -1) if r % 2 == 1 else range(1, Q)
+                pts += [(r, x) for x in cols]
+            pts += [(r, 0) for r in range(P - 1, 0, -1)]
+            return [(x, y) for (y, x) in pts] if tr else pts
+
+        if P % 2 == 0:
+            out.append(pattern(ham(P, Q, False)))
+        elif Q % 2 == 0:
+            out.append(pattern(ham(Q, P, True)))
+    return out
+
+
+def _deep_partitions(d):
+    """a few partitions of a larger grid: rows, one block, a long serpentine block with the rest in
+    strips (connected, large radius), and two with a disconnected block (must be rejected)"""
+    h, w = d["grid"]
+    cell = lambda y, x: y * w + x
+    n = h * w
+    out = [[0] * n, [y for y in range(h) for x in range(w)], [x for y in range(h) for x in range(w)]]
+    lab = [-1] * n
+    for y in range(0, h, 2):
+        for x in range(w):
+            lab[cell(y, x)] = 0
+        if y + 1 < h and y + 2 < h:
+            lab[cell(y + 1, (w - 1) if (y // 2) % 2 == 0 else 0)] = 0
+    nxt = 1
+    for y in range(h):
+        run = False
+        for x in range(w):
+            if lab[cell(y, x)] == -1:
+                if not run:
+                    run = True
+                    cur = nxt
+                    nxt += 1
+                lab[cell(y, x)] = cur
+            else:
+                run = False
+    out.append(list(lab))
+    bad = list(lab)
+    if n >= 4:
+        bad[cell(h - 1, w - 1)] = bad[cell(0, 0)] if lab[cell(h - 1, w - 1)] != lab[cell(0, 0)] else nxt
+        out.append(bad)
+    chk = [(y + x) % 2 for y in range(h) for x in range(w)]
+    out.append(chk)
+    return out
 
 
 def json_key(d):
@@ -576,8 +711,8 @@ def deep_descs(prop, tier):
                 out.append(dict(func="active_edges_single_cycle", n=n, edges=C(n), prim=prim, form="vars", deep=True))
                 out.append(dict(func="active_edges_single_cycle", n=n, edges=C(n) + [[0, 1]], prim=prim, form="vars", deep=True))
             out.append(dict(func="active_edges_single_path", n=n, edges=P(n), prim=True, form="vars", deep=True))
-        for fr in ((3, 3), (2, 5), (5, 2)):
-            for prim in (False, True):
+        for fr in ((3, 3), (2, 5), (5, 2), (3, 4), (4, 3), (2, 7)) + (((4, 4), (5, 5), (3, 6)) if big else ()):
+            for prim in (False, True) if fr[0] * fr[1] <= 10 else (False,):
                 out.append(dict(func="active_edges_single_cycle", frame=list(fr), prim=prim, deep=True))
     if prop == "C07":
         for n in (7, 9):
@@ -588,6 +723,8 @@ def deep_descs(prop, tier):
             sf = "list:" + ",".join(["-"] * (g[0] * g[1] - 1) + [str(g[0] * g[1])])
             for prim in (False, True):
                 out.append(dict(func="division_connected_variable_groups_with_borders", grid=list(g), size=sf, prim=prim, deep=True))
+        for g in ((5, 6), (6, 5), (3, 7)) + (((7, 6), (5, 8)) if big else ()):
+            out.append(dict(func="division_connected_variable_groups", grid=list(g), size="none", deep=True))
     if prop == "C08":
         for g in ((4, 6), (6, 4), (5, 7)) + (((4, 7), (7, 5), (3, 8), (8, 3), (6, 9), (9, 6), (5, 8)) if big else ()):
             out.append(dict(func="active_vertices_not_adjacent_and_not_segmenting", grid=list(g), as_grid=True, form="vars", deep=True))
